@@ -77,6 +77,9 @@ pub enum Op {
     /// ping the actor (so that it has started), then replace this client's weak sender and weak
     /// caller (slot 0) by the ones the actor's own context made (`Action::ShareCtxHandles`)
     AdoptCtx,
+    /// the same without the ping, for a client that holds weak handles only (nothing happens
+    /// when the actor has not shared anything)
+    AdoptCtxWeak,
     /// OwningAddr::join().await
     Join(H),
     /// create the join future now, await it with JoinAwait(k)
@@ -169,6 +172,24 @@ pub fn reset_post() {
     JOIN_POST.with(|p| p.borrow_mut().clear());
 }
 
+fn adopt(h: &mut Handles, share: (WeakSender<Note>, WeakCaller<Ask>, Option<WeakAddr<P>>)) {
+    let (ws, wc, wa) = share;
+    if h.wsnd.is_empty() {
+        h.wsnd.push(None);
+    }
+    if h.wcal.is_empty() {
+        h.wcal.push(None);
+    }
+    h.wsnd[0] = Some(ws);
+    h.wcal[0] = Some(wc);
+    if let Some(wa) = wa {
+        if h.waddr.is_empty() {
+            h.waddr.push(None);
+        }
+        h.waddr[0] = Some(wa);
+    }
+}
+
 async fn exec_op(h: &mut Handles, op: Op) -> Res {
     match op {
         Op::JoinGive(k) => match h.joins.get_mut(k as usize).and_then(Option::take) {
@@ -184,19 +205,18 @@ async fn exec_op(h: &mut Handles, op: Op) -> Res {
                 return EMPTY;
             }
             match world::CTX_SHARE.with(|c| c.borrow().clone()) {
-                Some((ws, wc)) => {
-                    if h.wsnd.is_empty() {
-                        h.wsnd.push(None);
-                    }
-                    if h.wcal.is_empty() {
-                        h.wcal.push(None);
-                    }
-                    h.wsnd[0] = Some(ws);
-                    h.wcal[0] = Some(wc);
+                Some(share) => {
+                    adopt(h, share);
                     Res::Ok
                 }
                 None => EMPTY,
             }
+        }
+        Op::AdoptCtxWeak => {
+            if let Some(share) = world::CTX_SHARE.with(|c| c.borrow().clone()) {
+                adopt(h, share);
+            }
+            Res::Ok
         }
         Op::JoinTake => match JOIN_POST.with(|p| p.borrow_mut().pop()) {
             Some(f) => {
